@@ -767,6 +767,19 @@ func (tree *MutableTree) SaveVersion() ([]byte, int64, error) {
 
 	tree.logger.Debug("SAVE TREE", "version", version)
 
+	// Publish the new latest version before any part of it can reach the store (the batch may be
+	// flushed early): the fast index describes the latest version only, so readers that hold the
+	// previous version must stop trusting it from the moment its entries start to change.
+	// If the commit fails the previous value is restored.
+	previousLatest := tree.ndb.getCachedLatestVersion()
+	tree.ndb.resetLatestVersion(version)
+	committed := false
+	defer func() {
+		if !committed {
+			tree.ndb.resetLatestVersion(previousLatest)
+		}
+	}()
+
 	// save new fast nodes
 	if !tree.skipFastStorageUpgrade {
 		if err := tree.saveFastNodeVersion(version); err != nil {
@@ -806,7 +819,7 @@ func (tree *MutableTree) SaveVersion() ([]byte, int64, error) {
 	}
 	verifYield("save:committed")
 
-	tree.ndb.resetLatestVersion(version)
+	committed = true
 	tree.version = version
 
 	// set new working tree
